@@ -439,7 +439,9 @@ func (b *Broker) sendMsgToClient(span *model.SpanContext, topic string, payload 
 
 	for clientID, subQoS := range subscribers {
 		if subQoS < qos {
-			return
+			// this subscriber asked for a lower QoS than the message's: skip it,
+			// the remaining subscribers must still be served
+			continue
 		}
 		client := b.getClient(clientID)
 		if client == nil {
